@@ -314,6 +314,22 @@ fn workload(m: &mut Mon, bits: usize) {
     if bits == 0 {
         return;
     }
+    // Interpreter lanes: operands that fill the type (bit length = BITS, so that the Lehmer prefix starts in the top
+    // limb), against a neighbour, a half-length and a one-limb partner, unthinned (seeded change C12-J: a 128-bit
+    // prefix read through a raw pointer, one limb past the array when bit_len = BITS = 64 * LIMBS).
+    if m.is_light() {
+        let mx = gen::max(bits);
+        let mut partners = vec![gen::pow2(bits - 1, bits), gen::ones(bits / 2 + 1, bits), gen::small(1, bits)];
+        let mut nb = mx.clone();
+        nb[0] -= 1;
+        partners.push(nb);
+        for (k, b) in partners.iter().enumerate() {
+            if m.light_owns(k as u64, "gcd") {
+                m.case_always("gcd", bits, vec![au(&mx), au(b)]);
+                m.case_always("gcd", bits, vec![au(b), au(&mx)]);
+            }
+        }
+    }
     let bd = gen::boundary(bits);
     let mut r = m.stream("c12.directed", bits);
     for a in &bd {
